@@ -42,8 +42,23 @@ def random_feature(rng, ctx):
         cc = rng.sample(range(NCOMP), rng.randint(1, 3))
         lo = [wg.num(rng, -5, 5) for _ in cc]
         hi = [wg.R(l + wg.num(rng, 0.1, 3)) for l in lo]
-        f['composition models'] = [{'model': 'random', 'compositions': cc, 'min value': lo, 'max value': hi}]
+        # list shapes: one bound per composition, or a single bound shared by all compositions (either side)
+        shape = rng.choice(['per-composition', 'per-composition', 'shared-min', 'shared-max', 'shared-both']) if len(cc) > 1 else 'per-composition'
+        lo_w, hi_w = lo, hi
+        if shape in ('shared-min', 'shared-both'):
+            lo = [min(lo)] * len(cc)
+            lo_w = lo[:1]
+            hi = [wg.R(lo[0] + wg.num(rng, 0.1, 3) * (3.0 ** -i)) for i in range(len(cc))]      # clearly different maxima
+            hi_w = hi
+        if shape in ('shared-max', 'shared-both'):
+            hi = [max(hi)] * len(cc)
+            hi_w = hi[:1]
+            if shape == 'shared-max':
+                lo = [wg.R(hi[0] - wg.num(rng, 0.1, 3) * (3.0 ** -i)) for i in range(len(cc))]
+                lo_w = lo
+        f['composition models'] = [{'model': 'random', 'compositions': cc, 'min value': lo_w, 'max value': hi_w}]
         truth['comp'] = {c: (lo[i], hi[i]) for i, c in enumerate(cc)}
+        truth['comp_shape'] = shape
     return f, t, truth
 
 
@@ -69,7 +84,7 @@ def main(tier, seed, replay):
     V.coverage['rule'] = ('single-feature worlds of every feature type with a random grains model (and random composition for continental plates); per world five instances in one process: A and its twin B (same constructor '
                           'seed), C (another seed), D (seed given by the random number seed entry, any constructor seed), E (the file again with the first seed, queried after the others); the same history of 40-80 calls '
                           '(grains with 1-200 grains, batched lists, compositions) interleaved call by call; twins and D bit-identical, C differs in at least one drawn value; every orientation a proper rotation, '
-                          'normalised sizes sum to one, fixed sizes as given, random sizes in [0,1), random compositions within their bounds; non-trivial = histories with >= 100 draws')
+                          'normalised sizes sum to one, fixed sizes as given, random sizes in [0,1), random compositions within their bounds (bounds given per composition or as one shared value on either side); non-trivial = histories with >= 100 draws')
     nworlds = 120 if tier == 'quick' else 3600
     jobs = []
     for i in range(nworlds):
@@ -171,7 +186,7 @@ def main(tier, seed, replay):
                     draws += 1
                     any_random = True
                     if not (lo <= blk[0] < hi or (blk[0] == hi == lo)):
-                        V.violation('random-composition-outside-its-bounds', dict(detail, composition=p[1], value=blk[0], bounds=(lo, hi), all_bounds=truth['comp']))
+                        V.violation('random-composition-outside-its-bounds:%s' % truth.get('comp_shape'), dict(detail, composition=p[1], value=blk[0], bounds=(lo, hi), all_bounds=truth['comp']))
         if any_random and not differs_c:
             V.violation('different-seeds-give-the-same-draws', {'world': fn, 'seeds': seeds, 'draws': draws})
         if draws >= 100:
